@@ -472,7 +472,7 @@ func (w *gramWalk) expr(e ast.Expr) []gtok {
 			return false
 		}
 		if passes {
-			w.err = fmt.Errorf("stream passed to unknown function %s at %s", callee.FullName(), w.g.c.Pos(call.Pos()))
+			w.err = &foreignStreamErr{callee.FullName(), w.g.c.Pos(call.Pos())}
 		}
 		return true
 	})
@@ -558,4 +558,12 @@ func (g *gramCtx) streamPairs() [][2]*types.Func {
 		}
 	}
 	return out
+}
+
+// foreignStreamErr: the stream is handed to a function outside the module that is not one of the exact read/write
+// primitives (a buffering or transforming wrapper): what it consumes from the stream is not bounded by the grammar.
+type foreignStreamErr struct{ callee, pos string }
+
+func (e *foreignStreamErr) Error() string {
+	return "stream passed to unknown function " + e.callee + " at " + e.pos
 }
